@@ -123,3 +123,47 @@ Proof.
   assert (Hv' : v = 0%N \/ v = 1%N) by lia.
   destruct Hv' as [-> | ->]; unfold walkgetattr_calls; cbn [pred_holds]; cbv -[repeat]; rewrite Hc; reflexivity.
 Qed.
+
+(** ---- ReadAt / WriteAt: I/O split to fit msize (C11's chunk) ---- *)
+
+(** the backend calls of one client WriteAt / ReadAt: one per chunk request *)
+Definition writeat_calls (fid : N) (p : list N) (calls : list ccall) : list bcall :=
+  map (fun c => mkbc "WriteAt" (OnFid fid) [VB (firstn (c_len c) (skipn (c_pos c) p)); VN (Z.to_N (c_off c))]) calls.
+
+Definition readat_calls (fid : N) (calls : list ccall) : list bcall :=
+  map (fun c => mkbc "ReadAt" (OnFid fid) [VBuf (N.of_nat (c_len c)); VN (Z.to_N (c_off c))]) calls.
+
+Definition data_of (b : bcall) : list N := match b_args b with VB d :: _ => d | _ => [] end.
+Definition off_of (b : bcall) : N := match b_args b with [_; VN o] => o | _ => 0%N end.
+
+(** the data of the successive WriteAt calls, put end to end, is the part of p that was offered; each call is at the
+    offset where the previous one ended; and every call carries at most one payload *)
+Lemma chunks_concat cs lenp off0 pos calls t e (p : list N) :
+  chunks_ok cs lenp off0 pos calls t e -> lenp = List.length p ->
+  concat (map (fun c => firstn (c_len c) (skipn (c_pos c) p)) calls) =
+  firstn (fold_right (fun c a => c_len c + a) 0 calls) (skipn pos p).
+Proof.
+  intros H Hl. induction H.
+  - reflexivity.
+  - cbn. rewrite app_nil_r, Nat.add_0_r. now rewrite H0.
+  - cbn. rewrite IHchunks_ok. rewrite H0, H1.
+    rewrite <- (firstn_skipn_add (skipn pos p) cs). f_equal. f_equal. symmetry. apply skipn_skipn'.
+Qed.
+
+Theorem writeat_split : forall cs (p : list N) off0 fid calls n e,
+  1 <= cs -> chunks_ok cs (List.length p) off0 0 calls n e -> (0 <= off0)%Z ->
+  let bc := writeat_calls fid p calls in
+  concat (map data_of bc) = firstn (fold_right (fun c a => c_len c + a) 0 calls) p /\
+  Forall (fun b => List.length (data_of b) <= cs) bc /\
+  Forall2 (fun b c => off_of b = Z.to_N (off0 + Z.of_nat (c_pos c))) bc calls.
+Proof.
+  intros cs p off0 fid calls n e Hcs Hok Hoff bc. subst bc. unfold writeat_calls. split; [|split].
+  - rewrite map_map. cbn [data_of b_args]. now rewrite (chunks_concat _ _ _ _ _ _ _ p Hok eq_refl).
+  - rewrite Forall_map. cbn [data_of b_args].
+    eapply Forall_impl; [|exact (chunks_ok_each _ _ _ _ _ _ _ Hok)]. cbn. intros c Hc. specialize (Hc Hcs).
+    rewrite firstn_length. lia.
+  - pose proof (chunks_ok_each _ _ _ _ _ _ _ Hok) as He. clear Hok.
+    induction calls as [|c r IH]; cbn; constructor.
+    + inversion He; subst. destruct (H1 Hcs) as (_ & _ & Ho & _). cbn. now rewrite Ho.
+    + apply IH. now inversion He.
+Qed.
